@@ -58,6 +58,45 @@ def spec_closure(eng, specs, formulas, fuel=2, quantified=True):
     return out
 
 
+def spec_names_in(t, decl_names, cache=None):
+    out = set()
+    for sub in _walk(t, set()):
+        if z3.is_app(sub) and sub.decl().kind() == z3.Z3_OP_UNINTERPRETED and sub.decl().name() in decl_names:
+            out.add(sub.decl().name())
+    return out
+
+
+def prune_hyps(specs, hyps, goal):
+    """Relevance filter (sound: proving from a subset of the hypotheses): drop hypotheses that talk about recursive
+    spec functions which neither the goal nor the definitions it depends on mention."""
+    import ast as _ast
+    rec = {s.decl().name(): s for s in specs.values() if s.recursive}
+    if not rec:
+        return hyps, False
+    deps = {}
+    for nm, sp in specs.items():
+        deps[nm] = {n.func.id for n in _ast.walk(sp.body) if isinstance(n, _ast.Call) and isinstance(n.func, _ast.Name)
+                    and n.func.id in specs}
+    want = {d[len("spec_"):] for d in spec_names_in(goal, rec)}
+    # non-recursive specs are inlined, so their callees already occur in the goal term
+    frontier = list(want)
+    while frontier:
+        nm = frontier.pop()
+        for d in deps.get(nm, ()):
+            if d not in want:
+                want.add(d)
+                frontier.append(d)
+    keep_decls = {"spec_" + nm for nm in want}
+    out, dropped = [], False
+    for h in hyps:
+        used = spec_names_in(h, rec)
+        if used and not (used <= keep_decls):
+            dropped = True
+            continue
+        out.append(h)
+    return out, dropped
+
+
 def to_smt2(hyps, goal):
     s = z3.Solver()
     for h in hyps:
